@@ -377,7 +377,9 @@ def style(rng):
         seps = [' '] * 40
     return {'case': rng.choice([0, 0, 0, 1, 2]), 'kcase': rng.choice([0, 0, 0, 0, 1]), 'paren': paren, 'seps': seps,
             'indent': rng.choice(['', '', '', '', ' ', '   ']), 'trail': rng.choice(['', '', '', ' ']),
-            'hashsp': rng.choice([' # ', ' # ', ' #', '# ', '  #  ']),
+            'hashsp': rng.choice([' # ', ' # ', ' #', '# ', '  #  ', '\t# ', '\t#\t']),
+            # free white space just inside the parentheses: circle( 10, 20, 3 )
+            'pad': rng.choice(['', '', '', '', ' ', '  ', '\t']), 'pad2': rng.choice(['', '', '', ' ', '\t']),
             'sep': rng.choice(['\n', '\n', '\n', '\n', ';', '; ', ';\n', '\n\n']), 'last': rng.choice(['', '\n', '\n', ';'])}
 
 
@@ -673,9 +675,9 @@ def params_text(toks, st):
             s += st['seps'][i % len(st['seps'])]
         s += tok_text(t)
     if st['paren'] == '()':
-        return '(' + s + ')'
+        return '(' + st.get('pad', '') + s + st.get('pad2', '') + ')'
     if st['paren'] == ' ()':
-        return ' (' + s + ')'
+        return ' (' + st.get('pad', '') + s + st.get('pad2', '') + ')'
     return ' ' + s
 
 
@@ -700,11 +702,11 @@ def render_item(it):
     if k == 'global':
         return st['indent'] + cased('global', st['case']) + ' ' + props_text(it['props'], st['kcase']) + st['trail']
     if k == 'composite':
-        st2 = dict(st, paren='()', seps=[','])
+        st2 = dict(st, paren='()', seps=[','], pad='', pad2='')
         return '# composite' + params_text(it['toks'], st2) + ' || ' + props_text(it['props'], 0)
     # region / ushape
     if it['hash']:
-        st2 = dict(st, paren='()', seps=[','])
+        st2 = dict(st, paren='()', seps=[','], pad='', pad2='')
         s = '# ' + it['shape'] + params_text(it['toks'], st2)
         if it['cont']:
             s += ' ||'
